@@ -212,6 +212,12 @@ func (s *sampler) evApp(t *smt.Term, args []*smt.Term) *smt.Term {
 // sampleWitness looks for a concrete assignment of the variables that satisfies the path condition, the exact
 // definitions of abstracted operators and c; it returns the assignment or nil.
 func (it *Interp) sampleWitness(c *smt.Term) map[*smt.Term]*smt.Term {
+	return it.sampleWitnessN(c, 2*sampleTries)
+}
+
+// sampleWitnessN: the same with an explicit number of attempts (the fallback for assertions the solver cannot
+// decide uses many more attempts than the pre-solver).
+func (it *Interp) sampleWitnessN(c *smt.Term, tries int) map[*smt.Term]*smt.Term {
 	if it.P == nil || it.M == nil {
 		return nil
 	}
@@ -230,7 +236,7 @@ func (it *Interp) sampleWitness(c *smt.Term) map[*smt.Term]*smt.Term {
 		return nil
 	}
 	rnd := uint64(0x9E3779B97F4A7C15) ^ uint64(c.ID)<<1 ^ uint64(len(it.P.PC))
-	for k := 0; k < 2*sampleTries; k++ {
+	for k := 0; k < tries; k++ {
 		s := &sampler{c: it.C, env: map[*smt.Term]*smt.Term{}, memo: map[*smt.Term]*smt.Term{}}
 		ok := true
 		for i, v := range vars {
